@@ -1,9 +1,137 @@
 import Pose.Wire
 import Pose.Driver.Lie
-/-! Driver ops for C16. -/
-namespace PP.Driver
-open PP Wire
+import Pose.Model.Imu
+/-!
+# Driver ops for C16 (IMU preintegration)
 
-def opsC16 : List (String × Handler) := []
+`imu.hist <mode> <eps> <g> <reset> <propcov> <left> p0(3) R0(4) v0(3) <ncalls> call…`
+  call  := `<F> <hasrot> <hasinit> [init] frame×F`
+  init  := p(3) R(4) v(3) <hascov> [cov(81)] <rijkind: 0 key absent | 1 None | 2 tensor> [Rij(4)]
+  frame := dt gyro(3) acc(3) [rot(4)] gcov(3) acov(3)
+  mode 0: the model of the code (`Imu.call`, carried state threaded through the calls);
+  mode 1: the documented specification (`compose ∘ preSeq`, `covSeq`), same state threading.
+  reply : per call  F×(rot4 vel3 pos3)  then cov(81) when propcov = 1.
+`imu.codeleft`                 reply: 1/0 — the product order the model of the code uses in `propagate_cov`
+`imu.shape d…`                 reply: the `_check`ed shape
+`imu.rankok ra rd rg`          reply: 0/1 (the assert on the three ranks)
+-/
+namespace PP.Driver
+open PP Wire Imu
+
+abbrev P := StateT (List String) (Except String)
+
+def pTok : P String := do
+  match (← get) with
+  | [] => throw "arity"
+  | t :: ts => set ts; return t
+
+def pNum : P B := do let t ← pTok; liftM (m := Except String) (Wire.num t)
+def pNat : P Nat := do let t ← pTok; liftM (m := Except String) (Wire.nat t)
+def pV3 : P (Vec3 B) := do return ⟨← pNum, ← pNum, ← pNum⟩
+def pQ : P (Quat B) := do return ⟨← pNum, ← pNum, ← pNum, ← pNum⟩
+def pRep (n : Nat) (p : P β) : P (List β) := (List.range n).mapM fun _ => p
+def pM9 : P (M9 B) := do let xs ← pRep 81 pNum; return ⟨xs.toArray⟩
+
+def pFrame (hasrot : Bool) : P (Frame B) := do
+  let dt ← pNum; let gy ← pV3; let ac ← pV3
+  let rot ← if hasrot then (do let r ← pQ; pure (some r)) else pure none
+  let gc ← pV3; let acv ← pV3
+  return ⟨dt, gy, ac, rot, gc, acv⟩
+
+def pInit : P (Init B) := do
+  let p ← pV3; let r ← pQ; let v ← pV3
+  let hc ← pNat
+  let cov ← if hc == 1 then (do let c ← pM9; pure (some c)) else pure none
+  let rk ← pNat
+  let rij ← match rk with
+    | 0 => pure none
+    | 1 => pure (some none)
+    | _ => (do let r ← pQ; pure (some (some r)))
+  return ⟨p, r, v, cov, rij⟩
+
+structure CallIn where
+  F : Nat
+  init : Option (Init B)
+  frames : Array (Frame B)
+
+def pCall : P CallIn := do
+  let F ← pNat; let hasrot ← pNat; let hasinit ← pNat
+  let init ← if hasinit == 1 then (do let i ← pInit; pure (some i)) else pure none
+  let frs ← pRep F (pFrame (hasrot == 1))
+  return ⟨F, init, frs.toArray⟩
+
+def zeroFrame : Frame B := ⟨BigF.zero, Vec3.zero, Vec3.zero, none, Vec3.zero, Vec3.zero⟩
+
+/-- the specification run: documented recursions from the same carried state -/
+def specCall (cfg : Cfg B) (st : State B) (init : Option (Init B)) (fr : Nat → Frame B) (F : Nat) : Result B :=
+  let p0 := match init with | some i => i.pos | none => st.pos
+  let R0 := match init with | some i => i.rot | none => st.rot
+  let v0 := match init with | some i => i.vel | none => st.vel
+  let C0 := match init with
+    | some i => (match i.cov with | some c => c | none => st.cov)
+    | none => st.cov
+  let Rij0 := match init with
+    | some i => (match i.Rij with | some r => r | none => st.Rij)
+    | none => st.Rij
+  -- sequential states, materialised one after the other
+  let pres : Array (Pre B) := (List.range F).foldl
+    (fun acc j => acc.push (preStep cfg.eps cfg.g R0 (acc.getD j Pre.init) (fr j))) #[Pre.init]
+  let outs := tab F fun j => compose p0 R0 v0 (pres.getD (j+1) Pre.init)
+  let cin : Nat → CovIn B := fun j =>
+    let s' := pres.getD (j+1) Pre.init
+    let rij := match Rij0 with | some r => r.mul s'.dR | none => s'.dR
+    ⟨rij, dr cfg.eps (fr j), removeG cfg.g R0 s'.dR (fr j), (fr j).dt, (fr j).gcov, (fr j).acov⟩
+  let _ := cin
+  let cov := if cfg.propCov then
+      some ((List.range F).foldl (fun C j =>
+        let A := matA (cin j)
+        ((A.mul C).mul A.transpose).add (noise cfg.eps (cin j))) C0)
+    else none
+  let last := outAt outs (F - 1)
+  let lastPre := pres.getD F Pre.init
+  let st' := if cfg.reset then st else
+    { pos := last.pos, rot := last.rot, vel := last.vel
+      cov := (match cov with | some c => c | none => st.cov)
+      Rij := (if cfg.propCov then some (match Rij0 with | some r => r.mul lastPre.dR | none => lastPre.dR) else st.Rij) }
+  ⟨outs, cov, st'⟩
+
+def pHist : P (List B) := do
+  let mode ← pNat
+  let eps ← pNum; let g ← pNum
+  let reset ← pNat; let propcov ← pNat; let left ← pNat
+  let p0 ← pV3; let r0 ← pQ; let v0 ← pV3
+  let n ← pNat
+  let cfg : Cfg B := ⟨eps, ⟨BigF.zero, BigF.zero, g⟩, reset == 1, propcov == 1, left == 1⟩
+  let mut st : State B := State.fresh p0 r0 v0
+  let mut out : Array B := #[]
+  for _ in [0:n] do
+    let c ← pCall
+    let fr : Nat → Frame B := fun j => c.frames.getD j zeroFrame
+    let r := if mode == 0 then call cfg st c.init fr c.F else specCall cfg st c.init fr c.F
+    for o in r.outs do
+      out := out ++ o.toList.toArray
+    match r.cov with
+    | some cv => out := out ++ cv.a
+    | none => pure ()
+    st := r.st
+  if !(← get).isEmpty then throw "trailing"
+  return out.toList
+
+def opsC16 : List (String × Handler) := [
+  ("imu.hist", fun ts => do
+      let (ys, _) ← pHist.run ts
+      return fmt ys),
+  ("imu.codeleft", fun _ => return (if codeLeft then "1" else "0")),
+  ("imu.shape", fun ts => do
+      let s ← nats ts
+      return fmtNats (checkShape s)),
+  ("imu.rankok", fun ts => do
+      -- the three ranks (acc, dt, gyro); `rankOk` only looks at the ranks
+      match ts with
+      | [a, d, g] =>
+        let a ← nat a; let d ← nat d; let g ← nat g
+        return (if rankOk (List.replicate a 1) (List.replicate d 1) (List.replicate g 1) then "1" else "0")
+      | _ => throw "arity")
+]
 
 end PP.Driver
